@@ -55,6 +55,16 @@ fn main() {
     let get = |k: &str, d: u64| opts.get(k).and_then(|v| v.parse::<u64>().ok()).unwrap_or(d);
     let keep_stdout = opts.contains_key("keep-stdout");
     let out = util::Proto::init(opts.get("hashes").map(String::as_str), keep_stdout);
+    let mut out = out;
+    {
+        let mut o = serde_json::Map::new();
+        for (k, v) in &opts {
+            if !matches!(k.as_str(), "shard" | "nshards" | "count" | "start" | "hashes" | "seed" | "keep-stdout" | "file") {
+                o.insert(k.clone(), serde_json::Value::String(v.clone()));
+            }
+        }
+        out.replay_base = serde_json::json!({"engine": engine, "seed": get("seed", 1), "opts": o});
+    }
     let mut ctx = Ctx {
         engine: engine.clone(),
         seed: get("seed", 1),
